@@ -43,6 +43,15 @@ func init() {
 			{"C01.feeder-watches-group", "the select that feeds pool workers watches the errgroup context, so a failed worker stops the feeder", 5, func(c *Ctx) { c.feederWatchesGroup() }},
 			{"C01.validate-file-keys", "Plan.Validate stores and looks up the open seed files under the same key", 1, c01ValidateFileKeys},
 			{"C01.clone-aligned", "block cloning is attempted only for ranges that hold a complete block (no wrapped or zero clone length, no partial copy beyond the range)", 6, c01CloneAligned},
+			{"C01.index-in-range", "in the seed matching and planning code every computed slice index is bounded by the length of the slice it indexes", 4, func(c *Ctx) {
+				c.indexInRange(map[string]bool{"fileseed.go": true, "selfseed.go": true, "nullseed.go": true, "sequencer.go": true, "seed.go": true}, map[string]string{
+					"IndexSegment.start":             "first/last are bounded where the segment is built (C01.segment-bounds, C01.plan-tiling)",
+					"IndexSegment.end":               "first/last are bounded where the segment is built (C01.segment-bounds, C01.plan-tiling)",
+					"nullChunkSeed.LongestMatchWith": "n counts completed iterations of a range over the same slice; a counting argument, not a comparison",
+					"selfSeed.add":                   "the cache holds segment ends taken from index segments; bounded where the segment is built",
+				})
+			}},
+			{"C01.seed-dir-skips-target", "the seed-dir scan is told to skip the index that is being extracted, not the output file", 2, c01SeedDirs},
 			{"C01.errors-not-dropped", "no error of the operations this property depends on is dropped", 1, func(c *Ctx) { c.errorsNotDropped("C01") }},
 		},
 	})
@@ -1307,5 +1316,90 @@ func c01CloneAligned(c *Ctx) {
 	}
 	if n == 0 {
 		c.bad("clone-aligned", token.NoPos, "clone functions not found")
+	}
+}
+
+// c01SeedDirs: the scan of --seed-dir skips the index that is being extracted (it lies next to
+// the target, which is incomplete or stale while the extraction runs - used as a seed it fails
+// the up-front validation or, with -k, is the target itself).  The skip compares every index
+// found with one parameter of readSeedDirs; the command has to hand the index file to that
+// parameter and the output file to the other.  Both are plain strings, so swapping them compiles.
+func c01SeedDirs(c *Ctx) {
+	rs := c.mustFn("cmd.readSeedDirs")
+	run := c.mustFn("cmd.runExtract")
+	if rs == nil || run == nil {
+		return
+	}
+	// the parameter that the skip test compares with
+	skipParam := -1
+	for _, g := range withClosures(rs) {
+		instrs(g, func(_ *ssa.BasicBlock, _ int, ins ssa.Instruction) {
+			b, ok := ins.(*ssa.BinOp)
+			if !ok || (b.Op != token.EQL && b.Op != token.NEQ) || !types.Identical(b.X.Type().Underlying(), types.Typ[types.String]) {
+				return
+			}
+			for _, side := range []ssa.Value{b.X, b.Y} {
+				for i, p := range rs.Params {
+					for _, l := range leaves(side) {
+						cl, _ := callOf(l)
+						if cl != nil && callee(cl) == "path/filepath.Abs" && isParam(cl.Call.Args[0], p) {
+							skipParam = i
+						}
+						if l == ssa.Value(p) {
+							skipParam = i
+						}
+					}
+				}
+			}
+		})
+	}
+	if skipParam < 0 {
+		c.bad("cmd.readSeedDirs:skips-target-index", rs.Pos(), "the scan of the seed directories no longer compares the indexes it finds with a file named by the caller: the index being extracted is taken for a seed")
+		return
+	}
+	c.ok("cmd.readSeedDirs:skips-target-index", rs.Pos(), "indexes found are compared with parameter %s", rs.Params[skipParam].Name())
+	same := func(a, b ssa.Value) bool {
+		if a == b {
+			return true
+		}
+		key := func(v ssa.Value) string {
+			if u, ok := v.(*ssa.UnOp); ok && u.Op == token.MUL {
+				if ia, ok := u.X.(*ssa.IndexAddr); ok {
+					if k, ok := ia.Index.(*ssa.Const); ok && k.Value != nil {
+						return fmt.Sprintf("%s[%d]", lockKey(ia.X), constInt64(k))
+					}
+				}
+			}
+			return ""
+		}
+		return key(a) != "" && key(a) == key(b)
+	}
+	var indexFiles []ssa.Value
+	for _, ci := range calls(run, named("cmd.readCaibxFile")) {
+		indexFiles = append(indexFiles, ci.Common().Args[0])
+	}
+	var targets []ssa.Value
+	for _, ci := range calls(run, func(n string) bool { return n == "cmd.writeInplace" || n == "cmd.writeWithTmpFile" }) {
+		for _, a := range ci.Common().Args {
+			if types.Identical(a.Type().Underlying(), types.Typ[types.String]) {
+				targets = append(targets, a)
+				break
+			}
+		}
+	}
+	for _, ci := range calls(run, named("cmd.readSeedDirs")) {
+		a := ci.Common().Args
+		isIdx, isTarget := false, false
+		for _, f := range indexFiles {
+			if same(a[skipParam], f) {
+				isIdx = true
+			}
+		}
+		for _, t := range targets {
+			if same(a[skipParam], t) {
+				isTarget = true
+			}
+		}
+		c.verdict(isIdx && !isTarget, "cmd.runExtract:seed-dir-skip-arg", ci.Pos(), "readSeedDirs is told to skip the index file the command reads", "the file readSeedDirs is told to skip is not the index that is being extracted (it is "+map[bool]string{true: "the output file", false: "something else"}[isTarget]+"): the index next to the target is taken for a seed of its own extraction")
 	}
 }
